@@ -97,6 +97,9 @@ type c19Env struct {
 	// identifiers of real log entries (oldest and newest metadata / message entry of the account group and of the
 	// multi-member group while they are open): listing requests are also issued with real bounds, in both orders
 	eventIDs [][]byte
+	// a genuine push payload of the group's last message and malformed variants of it (known group reference with
+	// odd nonce / box lengths)
+	oosVariants [][]byte
 }
 
 func newC19Env(t testing.TB, seed int64, ops []svcOp) *c19Env {
@@ -141,6 +144,43 @@ func newC19Env(t testing.TB, seed int64, ops []svcOp) *c19Env {
 		case "deactivate-contact-group":
 			if e.contactGPK != nil {
 				_, _ = tp.Service.DeactivateGroup(ctx, &protocoltypes.DeactivateGroup_Request{GroupPk: e.contactGPK})
+			}
+		}
+	}
+	if e.mmPK != nil && e.msgCID != nil {
+		if sealed, err := tp.Service.OutOfStoreSeal(ctx, &protocoltypes.OutOfStoreSeal_Request{Cid: e.msgCID, GroupPublicKey: e.mmPK}); err == nil {
+			// the references of the own device exist once the message loop has handled the own message
+			deadline := time.Now().Add(15 * time.Second)
+			for time.Now().Before(deadline) {
+				if _, err := tp.Service.OutOfStoreReceive(ctx, &protocoltypes.OutOfStoreReceive_Request{Payload: sealed.Encrypted}); err == nil {
+					break
+				}
+				time.Sleep(5 * time.Millisecond)
+			}
+			env := &protocoltypes.OutOfStoreMessageEnvelope{}
+			if proto.Unmarshal(sealed.Encrypted, env) == nil {
+				e.oosVariants = append(e.oosVariants, sealed.Encrypted)
+				mut := func(f func(m *protocoltypes.OutOfStoreMessageEnvelope)) {
+					m := proto.Clone(env).(*protocoltypes.OutOfStoreMessageEnvelope)
+					f(m)
+					b, _ := proto.Marshal(m)
+					e.oosVariants = append(e.oosVariants, b)
+				}
+				for _, n := range []int{0, 12, 23, 25, 48} {
+					n := n
+					mut(func(m *protocoltypes.OutOfStoreMessageEnvelope) { m.Nonce = bytes.Repeat([]byte{3}, n) })
+				}
+				for _, n := range []int{0, 1, 15, 16, 17} {
+					n := n
+					mut(func(m *protocoltypes.OutOfStoreMessageEnvelope) {
+						if n <= len(m.Box) {
+							m.Box = m.Box[:n]
+						}
+					})
+				}
+				mut(func(m *protocoltypes.OutOfStoreMessageEnvelope) { m.Box[len(m.Box)-1] ^= 1 })
+				mut(func(m *protocoltypes.OutOfStoreMessageEnvelope) { m.GroupReference = m.GroupReference[:len(m.GroupReference)-1] })
+				mut(func(m *protocoltypes.OutOfStoreMessageEnvelope) { m.GroupReference = nil })
 			}
 		}
 	}
@@ -203,6 +243,9 @@ func (e *c19Env) fieldValues(seed int64, f protoreflect.FieldDescriptor) []proto
 		}
 		if strings.HasSuffix(name, "_id") {
 			vals = append(vals, e.eventIDs...)
+		}
+		if name == "payload" {
+			vals = append(vals, e.oosVariants...)
 		}
 		vals = append(vals, known)
 		var out []protoreflect.Value
